@@ -7,7 +7,10 @@ afterwards, and merges the outcome into meta.json (checks_run_against_it, detect
 import json, os, subprocess, sys, time
 
 VERIF = os.path.dirname(os.path.dirname(os.path.abspath(__file__)))
-ENV = dict(os.environ, GOFLAGS="-mod=mod", GOPROXY="off", GOSUMDB="off", GOTOOLCHAIN="local")
+# SEED_REPO: the tree the change is applied to for the check runs (default /repo itself; a scratch worktree of /repo
+# lets a batch run beside other work, the checks are pointed at it through VERIF_REPO)
+REPO = os.path.abspath(os.environ.get("SEED_REPO", "/repo"))
+ENV = dict(os.environ, GOFLAGS="-mod=mod", GOPROXY="off", GOSUMDB="off", GOTOOLCHAIN="local", VERIF_REPO=REPO)
 
 
 def sh(cmd, cwd=None, timeout=3000):
@@ -22,9 +25,9 @@ def main():
     checks = [meta["property"]]
     if "--checks" in sys.argv:
         checks = sys.argv[sys.argv.index("--checks") + 1].split(",")
-    rc, st = sh("git -C /repo status --short")
-    assert st.strip() == "", "/repo is not clean: " + st
-    rc, out = sh("git -C /repo apply %s" % os.path.join(d, "patch.diff"))
+    rc, st = sh("git -C %s status --short" % REPO)
+    assert st.strip().replace("?? _seed/", "") == "", REPO + " is not clean: " + st
+    rc, out = sh("git -C %s apply %s" % (REPO, os.path.join(d, "patch.diff")))
     assert rc == 0, out
     results = meta.get("checks_run_against_it", {})
     try:
@@ -36,8 +39,8 @@ def main():
                           "at": time.strftime("%Y-%m-%dT%H:%M:%SZ", time.gmtime())}
             print(sid, c, "exit", rc, "\n".join(lines[:6]))
     finally:
-        sh("git -C /repo checkout -- .")
-        sh("git -C /repo clean -fdq -- fluent")
+        sh("git -C %s checkout -- ." % REPO)
+        sh("git -C %s clean -fdq -- fluent" % REPO)
     meta["checks_run_against_it"] = results
     meta["detected_by"] = sorted(c for c in results if results[c]["exit"] != 0)
     json.dump(meta, open(os.path.join(d, "meta.json"), "w"), indent=1)
